@@ -94,26 +94,26 @@ func writeEvidence(prop, tier string, seed uint64, results []indexedResult, wall
 		first, last = results[0].Seed, results[len(results)-1].Seed
 	}
 	cov := map[string]interface{}{
-		"evaluations":         len(results),
-		"distinct_nontrivial": len(nontrivial),
-		"rule":                "one evaluation = one seeded simulated run (swarm-drawn configuration, adaptive trace of blocks/transactions/faults executed on the real app through ABCI). Non-trivial = at least 5 successful transactions and every mandatory probe of this property hit; distinct = distinct hash of the materialised trace.",
-		"samples":             samples,
-		"runs_by_profile":     byProfile,
-		"run_seeds":           map[string]uint64{"first": first, "last": last},
-		"runs_per_hour":       float64(len(results)) / wall * 3600,
-		"simulated_blocks":    sum.blocks,
-		"simulated_seconds":   simSeconds,
-		"txs_by_kind_result":  txs,
-		"faults_fired":        faults,
-		"probes":              sum.probes,
-		"distinct_abstract_states": len(states),
-		"distinct_adjacent_op_pairs": len(pairs),
-		"state_measure":       "hash of: multiset (capped at 3) of order (status,operation), multiset of shard (status,#renewals), #debts, #faults, #super nodes, #models (capped)",
-		"unresolved_ops":      unresolved,
-		"runs_ended_by_chain_halt": dead,
+		"evaluations":                  len(results),
+		"distinct_nontrivial":          len(nontrivial),
+		"rule":                         "one evaluation = one seeded simulated run (swarm-drawn configuration, adaptive trace of blocks/transactions/faults executed on the real app through ABCI). Non-trivial = at least 5 successful transactions and every mandatory probe of this property hit; distinct = distinct hash of the materialised trace.",
+		"samples":                      samples,
+		"runs_by_profile":              byProfile,
+		"run_seeds":                    map[string]uint64{"first": first, "last": last},
+		"runs_per_hour":                float64(len(results)) / wall * 3600,
+		"simulated_blocks":             sum.blocks,
+		"simulated_seconds":            simSeconds,
+		"txs_by_kind_result":           txs,
+		"faults_fired":                 faults,
+		"probes":                       sum.probes,
+		"distinct_abstract_states":     len(states),
+		"distinct_adjacent_op_pairs":   len(pairs),
+		"state_measure":                "hash of: multiset (capped at 3) of order (status,operation), multiset of shard (status,#renewals), #debts, #faults, #super nodes, #models (capped)",
+		"unresolved_ops":               unresolved,
+		"runs_ended_by_chain_halt":     dead,
 		"max_loop_ticks_per_abci_call": maxTicks,
-		"known_findings_matched": knownHits,
-		"components":          realStub,
+		"known_findings_matched":       knownHits,
+		"components":                   realStub,
 	}
 	ev := map[string]interface{}{
 		"property_id": prop,
@@ -149,7 +149,6 @@ func sampleOf(t *Trace, seed uint64, profile string) interface{} {
 	_ = sort.Strings
 	return map[string]interface{}{"seed": seed, "profile": profile, "config": t.Cfg, "steps": len(t.Steps), "ops_prefix": ops, "x": ks}
 }
-
 
 // oracleAssumptions: what the oracles of a property take from the anchored code or read into the
 // statement, beyond the statement's own words.
